@@ -2,6 +2,7 @@
 \* radiation x file-wide chi x dose factors (42 descriptors, 13 244 scenarios), every merge order
 CONSTANTS NSrc = 3  NLab = 2  Fissile = {1}  MaxLevel = 6
 CONSTANT SrcList <- ListAll
+CONSTANT IdOf <- IdOf2
 INIT Init
 NEXT Next
 CONSTRAINT Bound
